@@ -190,6 +190,7 @@ type memConn struct {
 	cliClosed bool
 
 	rdDeadline, wrDeadline time.Time
+	failSetRd, failSetWr   bool // armed one-shot faults of SetReadDeadline / SetWriteDeadline
 	rdTimer                *time.Timer
 
 	readLimit   int // max bytes per client Read (0 = a whole segment)
@@ -376,13 +377,40 @@ func (c *memConn) LocalAddr() net.Addr {
 func (c *memConn) RemoteAddr() net.Addr { return &net.TCPAddr{IP: net.IPv4(10, 0, 0, 1), Port: 80} }
 
 func (c *memConn) SetDeadline(t time.Time) error {
-	c.SetReadDeadline(t)
+	if err := c.SetReadDeadline(t); err != nil {
+		return err
+	}
 	return c.SetWriteDeadline(t)
+}
+
+// errMemDeadlineFault is what a Set*Deadline call returns on a connection with an armed deadline fault.
+var errMemDeadlineFault = errors.New("memconn: set deadline: injected fault")
+
+// armDeadlineFault makes the NEXT SetWriteDeadline (kind 0) or SetReadDeadline (kind 1) call on this connection
+// fail (one shot), the way a wrapper / TLS / already torn down connection does.
+func (c *memConn) armDeadlineFault(kind int) {
+	c.mu.Lock()
+	if kind == 0 {
+		c.failSetWr = true
+	} else {
+		c.failSetRd = true
+	}
+	c.mu.Unlock()
+}
+
+func (c *memConn) deadlineFaultArmed() bool {
+	c.mu.Lock()
+	defer c.mu.Unlock()
+	return c.failSetWr || c.failSetRd
 }
 
 func (c *memConn) SetReadDeadline(t time.Time) error {
 	c.mu.Lock()
 	defer c.mu.Unlock()
+	if c.failSetRd {
+		c.failSetRd = false
+		return errMemDeadlineFault
+	}
 	c.rdDeadline = t
 	if c.rdTimer != nil {
 		c.rdTimer.Stop()
@@ -405,8 +433,12 @@ func (c *memConn) SetReadDeadline(t time.Time) error {
 
 func (c *memConn) SetWriteDeadline(t time.Time) error {
 	c.mu.Lock()
+	defer c.mu.Unlock()
+	if c.failSetWr {
+		c.failSetWr = false
+		return errMemDeadlineFault
+	}
 	c.wrDeadline = t
-	c.mu.Unlock()
 	return nil
 }
 
